@@ -130,6 +130,7 @@ type runResult struct {
 	errs    []string
 	tags    int
 	ctxs    map[*Obligation]*FnCtx
+	extra   map[string]any
 }
 
 func (c *FnCtx) script(o *Obligation, extra []Term) string {
@@ -421,6 +422,13 @@ func runProperty(prop string, tier string, seed int, only string) (*runResult, e
 				fr.Discharged++
 			}
 		}
+	}
+	// form D: table conformance (C09)
+	if prop == "C09" && only == "" {
+		to, tp, info := runTableConformance(L, prop, tmo, seed)
+		res.obls = append(res.obls, to...)
+		res.errs = append(res.errs, tp...)
+		res.extra = info
 	}
 	// lemmas
 	lo, lt, lerrs := runLemmas(L, U, specs, prop, tmo, seed, tier == "thorough")
